@@ -615,7 +615,14 @@ def translate_eig2d(methods, fname):
         raise TranslateError("%s:%d: M1 scatter changed" % (fname, a.lineno))
     sc = Scalar({"I_e_pg": ('s', 'i'), "M1": ('s', 'm1')}, fname)
     out["M2"] = sc.ev(find_assign(body, "M2", fname).value)
-    allowed = {"det_e_pg", "tr_e_pg", "delta", "eigs_e_pg", "eigs_e_pg[:, :, 0]", "eigs_e_pg[:, :, 1]", "v1_m_v2",
+    out["delta_post"] = ('s', 'x')
+    for st in body:
+        if isinstance(st, ast.Assign) and _norm(ast.unparse(st.targets[0])) in (_norm("delta[delta < 0]"), _norm("delta[delta < 0.0]")):
+            if _norm(ast.unparse(st.value)) not in ("0", "0.0"):
+                raise TranslateError("%s:%d: delta clamp value changed" % (fname, st.lineno))
+            out["delta_post"] = "clamp"
+    allowed = {"delta[delta < 0]", "delta[delta < 0.0]",
+               "det_e_pg", "tr_e_pg", "delta", "eigs_e_pg", "eigs_e_pg[:, :, 0]", "eigs_e_pg[:, :, 1]", "v1_m_v2",
                "(elems, pdgs)", "M1", "M1[:, :, 0, 0]", "M2"}
     for st in body:
         if isinstance(st, ast.Assign):
@@ -645,7 +652,7 @@ class Mat3Expr:
         s = _norm(ast.unparse(n))
         if s == "mat_c1":
             return "X"
-        if s == "np.eye(3)":
+        if s in ("np.eye(3)", "eye3"):
             return "1"
         if s in ("I_e_pg",):
             return "1"
@@ -672,11 +679,19 @@ def translate_eig3d(methods, fname):
     if len(blk.orelse) != 1 or not isinstance(blk.orelse[0], ast.If) or _norm(ast.unparse(blk.orelse[0].test)) != "self.dim==3":
         raise TranslateError("%s: 3-D branch of the eigen routine not found" % fname)
     body = blk.orelse[0].body
-    c1 = find_if(body, "len(case1) > 0", fname)
-    for nm, want in (("v1_c1", "val1_e_pg[case1]"), ("v2_c1", "val2_e_pg[case1]"), ("v3_c1", "val3_e_pg[case1]"), ("mat_c1", "matrix_e_pg[case1]")):
+    c1 = None
+    for st in body:
+        if isinstance(st, ast.If) and any(isinstance(x, ast.Assign) and _norm(ast.unparse(x.targets[0])) == "M1[case1]" for x in st.body):
+            c1 = st
+    if c1 is None:
+        raise TranslateError("%s: the 'three distinct eigenvalues' block (assigning M1[case1]) was not found" % fname)
+    import re
+    for nm, pat in (("v1_c1", r"val1_e_pg.*\[case1\]"), ("v2_c1", r"val2_e_pg.*\[case1\]"), ("v3_c1", r"val3_e_pg.*\[case1\]"),
+                    ("mat_c1", r"mat(rix)?_e_pg.*\[case1\]")):
         a = find_assign(c1.body, nm, fname)
-        if _norm(ast.unparse(a.value)) != _norm(want):
-            raise TranslateError("%s:%d: %s is not %s" % (fname, a.lineno, nm, want))
+        txt = ast.unparse(a.value)
+        if not re.search(pat, txt) or re.search(r"[-+*/@]", re.sub(r"\[[^\]]*\]", "", txt)):
+            raise TranslateError("%s:%d: %s is not the case-1 restriction of its field [%s]" % (fname, a.lineno, nm, txt))
     me = Mat3Expr(fname)
     out = {"M1": me.ev(find_assign(c1.body, "M1[case1]", fname).value),
            "M3": me.ev(find_assign(c1.body, "M3[case1]", fname).value)}
@@ -806,8 +821,15 @@ def translate_history(simfile):
     blk = find_if(so.body, "solver in [solverTypes.History, solverTypes.BoundConstrain]", fname)
     if not (len(blk.orelse) == 1 and isinstance(blk.orelse[0], ast.If) and _norm(ast.unparse(blk.orelse[0].test)) == _norm("solver == solverTypes.HistoryDamage")):
         raise TranslateError("%s: Solve: HistoryDamage branch not found" % fname)
-    if [_norm(ast.unparse(s)) for s in blk.orelse[0].body] != [_norm(t) for t in HD_TEMPLATE]:
+    hd = [_norm(ast.unparse(s)) for s in blk.orelse[0].body]
+    if hd[:len(HD_TEMPLATE)] != [_norm(t) for t in HD_TEMPLATE]:
         raise TranslateError("%s: Solve: HistoryDamage maximum changed" % fname)
+    stored = False
+    for t in hd[len(HD_TEMPLATE):]:
+        if t == _norm("self._Set_solutions(self.ProblemTypes.damage, d_np1)"):
+            stored = True
+        elif t not in (_norm("self.__updatedDisplacement = False"), _norm("self.__updatedDamage = False")):
+            raise TranslateError("%s: Solve: unexpected statement after the HistoryDamage maximum [%s]" % (fname, t))
     a = find_assign(so.body, "old_damage", fname)
     if _norm(ast.unparse(a.value)) != "self.damage":
         raise TranslateError("%s: Solve: old_damage is not self.damage" % fname)
@@ -817,7 +839,9 @@ def translate_history(simfile):
     if [_norm(ast.unparse(s)) for s in inner.body] != [_norm(t) for t in LB_TEMPLATE]:
         raise TranslateError("%s: Get_lb_ub: bound-constrained branch changed" % fname)
     return {"hist_update": "fun old psi : R => if Rlt_dec (psi - old) 0 then old else psi",
-            "hd_update": "fun old new : R => Rmax old new",
+            # what Save_Iter stores (simu.damage) after Solve(): the maximum only if Solve writes it back
+            "hd_update": "fun old new : R => Rmax old new" if stored else "fun old new : R => new",
+            "hd_stored": stored,
             "bc_lb": "fun (eps d : R) => if Rle_dec 1 d then 1 - eps else d"}
 
 
@@ -890,6 +914,7 @@ def emit_coq(res):
     e = res["eig2d"]
     w("(* 2-D eigen routine; sd stands for np.sqrt(delta); x = a matrix entry, i = the identity's entry *)")
     w("Definition e2_delta (tr det : R) : R := %s." % sc_coq(e["delta"]))
+    w("Definition e2_delta_post (x : R) : R := %s." % ("if Rlt_dec x 0 then 0 else x" if e["delta_post"] == "clamp" else "x"))
     w("Definition e2_eig0 (tr sd : R) : R := %s." % sc_coq(e["eig0"]))
     w("Definition e2_eig1 (tr sd : R) : R := %s." % sc_coq(e["eig1"]))
     w("Definition e2_v1mv2 (l0 l1 : R) : R := %s." % sc_coq(e["v1mv2"]))
